@@ -13,7 +13,8 @@ abbrev cfg : Cfg :=
     forwardOwnSched := Gen.Thread.forwardOwnSchedId, resumeBumps := Gen.Thread.loopBumpsSchedAtResume }
 abbrev tcfg : TCfg := { completionAfterBody := Gen.Thread.completionAfterBody }
 abbrev rcfg : RCfg :=
-  { increfBeforeSend := Gen.Thread.increfBeforeSend, recvKnownDecref := Gen.Thread.unmarshalKnownTestIsAbsent }
+  { increfBeforeSend := Gen.Thread.increfBeforeSend, recvKnownDecref := Gen.Thread.unmarshalKnownTestIsAbsent,
+    deinitDecref := Gen.Thread.chanDeinitDecrefsUndelivered, decrefFreesAtZero := Gen.Thread.decrefCleanupFreesAtZero }
 
 /-- the callback must not deliver to a fiber that moved on -/
 theorem checks_sched_id : cfg.checkSched = true := by decide
@@ -93,7 +94,14 @@ theorem refcount_ge_reachers_current (acts : List RAct) :
     let s := rrun rcfg acts {}
     (s.freed = false → s.refcount = s.holds.length + s.transit) ∧ (s.freed = true → s.holds = [] ∧ s.transit = 0) ∧
       s.useAfterFree = false :=
-  refcount_ge_reachers rcfg (by decide) (by decide) acts
+  refcount_ge_reachers rcfg (by decide) (by decide) (by decide) acts
+
+/-- for today's source no shared object is ever stranded: unreferenced (no table entry, no message) ⇒ freed, at every point
+    of every interleaving, including finalizer runs of thread channels that still carry undelivered messages -/
+theorem shared_never_stranded_current (acts : List RAct) :
+    let s := rrun rcfg acts {}
+    s.holds = [] → s.transit = 0 → s.freed = true :=
+  shared_never_stranded rcfg (by decide) (by decide) (by decide) (by decide) acts
 
 /-- ev/lock and ev/rwlock are threaded abstracts with no marshal hooks (they cross threads only as pointer + incref, the
     threaded path being taken before any type hook), their finalizers only destroy the OS primitive, and every lock operation
@@ -106,6 +114,6 @@ theorem locks_valid_while_reachable_current (acts : List RAct) :
     let s := rrun rcfg acts {}
     (∀ t, s.reach t = true → s.freed = false) ∧ (0 < s.transit → s.freed = false) ∧ s.useAfterFree = false :=
   have _ := lock_types_shape
-  shared_valid_while_reachable rcfg (by decide) (by decide) acts
+  shared_valid_while_reachable rcfg (by decide) (by decide) (by decide) acts
 
 end JanetModel.Thread.Current
